@@ -78,6 +78,8 @@ CONFIGS = [
     [],
     ["--collapse-simple-statement", "Always"],
     ["--collapse-simple-statement", "Always", "--column-width", "40"],
+    ["--collapse-simple-statement", "ConditionalOnly"],
+    ["--collapse-simple-statement", "FunctionOnly"],
     ["--column-width", "20"],
     ["--column-width", "1"],
     ["--column-width", "100000"],
